@@ -163,14 +163,17 @@ class XModel:
         v.fields.setdefault('scope', Vec([('str', '')]))
         return v
 
-    def visit_post(self, visitor, node):
+    def visit_pre(self, visitor, node):
+        return self.visit_post(visitor, node, 'visitPre')
+
+    def visit_post(self, visitor, node, which='visitPost'):
         m = None
         for c in [visitor.cls] + self.idx.bases_of(visitor.cls):
             rec = self.idx.records.get(c)
             if not rec:
                 continue
             for x in rec.methods:
-                if x.name == 'visitPost' and x.params and node.cls.split('::')[-1] in qt(x.params[0]) and x.body is not None:
+                if x.name == which and x.params and node.cls.split('::')[-1] in qt(x.params[0]) and x.body is not None:
                     m = x
                     break
             if m:
